@@ -83,6 +83,22 @@ impl Drop for Map {
     }
 }
 
+thread_local! {
+    static ACTIVITY: std::cell::Cell<u64> = const { std::cell::Cell::new(0) };
+}
+
+/// Count of samples/packets committed or consumed by the calling thread.
+///
+/// Lets the single threaded graph runner see if a pass over the blocks moved
+/// any data, independent of what status the blocks returned.
+pub(crate) fn activity() -> u64 {
+    ACTIVITY.with(|a| a.get())
+}
+
+pub(crate) fn note_activity(n: usize) {
+    ACTIVITY.with(|a| a.set(a.get().wrapping_add(n as u64)));
+}
+
 /// Circular buffer dealing in bytes.
 #[derive(Debug)]
 pub struct Circ {
@@ -486,6 +502,7 @@ impl<T: Copy> Buffer<T> {
         }
         s.rpos = newpos;
         s.used -= n;
+        note_activity(n);
         #[cfg(feature = "verif_hooks")]
         crate::verif::moved(self.verif_id(), n);
         cv.notify_all();
@@ -534,6 +551,7 @@ impl<T: Copy> Buffer<T> {
         }
         s.wpos = (s.wpos + n) % s.capacity();
         s.used += n;
+        note_activity(n);
         #[cfg(feature = "verif_hooks")]
         crate::verif::moved(self.verif_id(), n);
         cv.notify_all();
